@@ -95,11 +95,14 @@ def hyp_of(predictor, F):
 
 class Table:
     """exact payoff table of one TLC state for one (moment kind, ratio)"""
-    def __init__(self, case, kind, rq):
+    def __init__(self, case, kind, rq, costs=None):
         self.case = case
         self.F = case["F"]
         self.hyps = [tuple(h) for h in case["hyps"]]
         self.err = [R(x) for x in case["err"]]
+        if costs is not None:       # cost-sensitive objective ErrorRate(costs={"fp": a, "fn": b})
+            ce = [c for c in case["cost_err"] if list(c["costs"]) == list(costs)][0]
+            self.err = [R(x) for x in ce["err"]]
         mo = [m for m in case["moments"] if m["kind"] == kind][0]
         self.index = mo["index"]
         self.keys = [M.index_key(e, case["S"] > 1) for e in mo["index"]]
